@@ -16,7 +16,12 @@ import trace as tr
 
 MODULE = "DfolsVerif.Properties.C19"
 BUILD_TARGETS = ["DfolsVerif.Driver.RngDrv"]
-THEOREMS = ["Dfols.C19.C19_rng_free"]
+def pre_build(ctx):
+    import gen_rngsites
+    ctx.cov["rng_sites_in_repo"] = gen_rngsites.regenerate(ctx)
+
+
+THEOREMS = ["Dfols.C19.C19_rng_free", "Dfols.C19.C19_src_rng_reach"]
 TRUSTED_EXTRA = [
     "PARTIAL: absence of writes to caller data is observed (read-only arrays, byte comparison), not proved (Python aliasing not modelled)",
     "the model only says where draws may occur; that a run without draws is a deterministic function of its arguments is the determinism of CPython/NumPy/LAPACK in one process",
@@ -85,6 +90,16 @@ def families(rng, prob):
                             "prox_uh": lambda x, u: np.sign(x) * np.maximum(np.abs(x) - 0.1 * u, 0.0)}),
            ("soft-restarts", {"user_params": {"restarts.use_restarts": True}}),
            ("hard-restarts", {"user_params": {"restarts.use_restarts": True, "restarts.use_soft_restarts": False}}),
+           # options that only matter together with a switch that is off must not bring randomness in
+           # (loose rhoend and a larger budget so that restarts really happen)
+           ("soft-restarts-max-npt-without-increase", {"rhoend": 1e-2, "maxfun": 150,
+                                                       "user_params": {"restarts.use_restarts": True, "restarts.max_npt": n + 3}}),
+           ("hard-restarts-max-npt-without-increase", {"rhoend": 1e-2, "maxfun": 150,
+                                                       "user_params": {"restarts.use_restarts": True, "restarts.use_soft_restarts": False,
+                                                                       "restarts.max_npt": n + 3, "restarts.increase_npt_amt": 2}}),
+           ("soft-restarts-reached", {"rhoend": 1e-2, "maxfun": 150, "user_params": {"restarts.use_restarts": True}}),
+           ("regression-extra-steps-no-momentum", {"npt": 2 * n + 1, "user_params": {"regression.num_extra_steps": 2,
+                                                                                     "regression.momentum_extra_steps": False}}),
            # documented as random:
            ("random-init", {"user_params": {"init.random_initial_directions": True}}),
            ("growing", {"user_params": {"growing.ndirs_initial": 1}} if n >= 2 else {"user_params": {"init.random_initial_directions": True}}),
@@ -131,7 +146,9 @@ def one_solve(dfols, prob, kw, state, maxfun):
     mut = []
     with RngRecorder() as rec:
         try:
-            soln = core.with_alarm(30, dfols.solve, f, x0, maxfun=maxfun, rhoend=1e-6, do_logging=False, **kw2)
+            mf = kw2.pop("maxfun", maxfun)
+            re_ = kw2.pop("rhoend", 1e-6)
+            soln = core.with_alarm(30, dfols.solve, f, x0, maxfun=mf, rhoend=re_, do_logging=False, **kw2)
             res = (np.asarray(soln.x).tobytes() if soln.x is not None else None, float(soln.obj) if soln.obj is not None else None,
                    int(soln.nf), int(soln.nx), int(soln.flag), str(soln.msg),
                    None if soln.jacobian is None else np.asarray(soln.jacobian).tobytes())
